@@ -17,6 +17,7 @@ var Faults = []string{
 	"hlit-30", "hlit-31", "hdist-30", "hdist-31",
 	"incomplete-lit-unused", "incomplete-dist-unused", "empty-dist-used",
 	"one-dist-code-other-used", "unassigned-dist-long",
+	"hdist-30-wellformed", "hlit-30-wellformed", "oversub-lit-one-15bit", "oversub-dist-one-15bit",
 }
 
 // Faulty builds a stream with exactly one injected fault, optionally after
@@ -303,6 +304,47 @@ func Faulty(r *gen.Rand, fault string, before int) (stream []byte, validPrefixPl
 				sp.RawHDIST = 31
 			}
 		}, true)
+	case "hdist-30-wellformed", "hlit-30-wellformed":
+		// an out-of-range count with exactly that many lengths following: a reader
+		// that accepts the count finds nothing else wrong
+		dyn(lead, func(sp *DynSpec) {
+			if fault == "hdist-30-wellformed" {
+				for len(sp.DistLens) < 31 {
+					sp.DistLens = append(sp.DistLens, 0)
+				}
+				sp.RawHDIST = 30
+			} else {
+				for len(sp.LitLens) < 287 {
+					sp.LitLens = append(sp.LitLens, 0)
+				}
+				sp.RawHLIT = 30
+			}
+		}, true)
+	case "oversub-lit-one-15bit", "oversub-dist-one-15bit":
+		// a complete code reaching 15 bits plus one surplus 15-bit codeword
+		toks := lead
+		o := CodeOpts{MaxLit: 15, MaxDist: 15, Shape: "deep", ExtraLit: r.Range(20, 100), ExtraDist: r.Range(16, 28)}
+		lit, dist := LengthsFor(r, toks, o)
+		sp := NewDynSpec()
+		grow := func(l []int, max int) []int {
+			for i, v := range l {
+				if v == 0 {
+					l[i] = 15
+					return l
+				}
+			}
+			if len(l) < max {
+				return append(l, 15)
+			}
+			return l
+		}
+		if fault == "oversub-lit-one-15bit" {
+			lit = grow(lit, 286)
+		} else {
+			dist = grow(dist, 30)
+		}
+		sp.LitLens, sp.DistLens = lit, dist
+		s.Dynamic(final, toks, sp, true)
 	case "incomplete-lit-unused":
 		dyn(lead, func(sp *DynSpec) { makeIncomplete(r, sp.LitLens) }, true)
 	case "incomplete-dist-unused":
